@@ -20,13 +20,32 @@ J = "glue/core/joins.py"
 DATA = "glue/core/data.py"
 
 
-def arr(term, shape_of=None):
-    a = PObj('ndarray', fields={'term': term, 'shape_of': shape_of or term})
-    a.methods['ravel'] = lambda I, s: arr(s.fields['term'], s.fields['shape_of'])
+def _unsup(msg):
+    raise Unsupported(msg)
+
+
+def _and(a, b):
+    """conjunction of mask terms, with `true` as unit"""
+    if a == ('true',):
+        return b
+    if b == ('true',):
+        return a
+    return ('and', a, b)
+
+
+def arr(term, shape_of=None, kind='O'):
+    a = PObj('ndarray', fields={'term': term, 'shape_of': shape_of or term, 'dtype': PObj('dtype', fields={'kind': kind})})
+    a.methods['ravel'] = lambda I, s: arr(s.fields['term'], s.fields['shape_of'], s.fields['dtype'].fields['kind'])
     a.methods['reshape'] = lambda I, s, shp: arr(s.fields['term'], shp.fields['of'] if isinstance(shp, PObj) and shp.cls == 'shape' else ('?',))
     a.methods['shape'] = ('__property__', lambda I, s: PObj('shape', fields={'of': s.fields['shape_of']}))
-    a.methods['astype'] = lambda I, s, dt, copy=True: s
+    # astype(common dtype): the same column, now of that dtype's kind
+    a.methods['astype'] = lambda I, s, dt, copy=True: arr(s.fields['term'], s.fields['shape_of'], dt.fields['kind'] if isinstance(dt, PObj) and dt.cls == 'dtype' else s.fields['dtype'].fields['kind'])
     a.methods['__ior__'] = lambda I, s, o: _ior(s, o)
+    a.methods['__len__'] = lambda I, s: z3.Int('number_of_rows')
+    a.methods['__add__'] = lambda I, s, other: s if other == 0.0 else _unsup("array + %r" % (other,))       # x + 0. only turns -0. into 0.
+    a.methods['__invert__'] = lambda I, s: arr(('not', s.fields['term']), s.fields['shape_of'])
+    a.methods['__and__'] = lambda I, s, o: arr(_and(s.fields['term'], o.fields['term']), s.fields['shape_of'])
+    a.methods['__iand__'] = lambda I, s, o: arr(_and(s.fields['term'], o.fields['term']), s.fields['shape_of'])
     return a
 
 
@@ -44,6 +63,7 @@ class KeyJoins(FnContract):
         out = []
         for n1, n2 in ((1, 1), (2, 2), (3, 3), (1, 2), (1, 3), (2, 1), (3, 1)):
             out.append(dict(n1=n1, n2=n2, others='one'))
+        out += [dict(n1=2, n2=2, others='one', float_keys=True), dict(n1=3, n2=3, others='one', float_keys=True)]
         out += [dict(n1=1, n2=1, others='first-recursing'), dict(n1=2, n2=2, others='first-incompatible'), dict(n1=1, n2=1, others='none'),
                 dict(n1=1, n2=1, others='all-incompatible'), dict(n1=2, n2=3, others='one'),
                 dict(n1=1, n2=1, others='other-error'), dict(n1=2, n2=2, others='incompatible-then-other-error')]
@@ -103,10 +123,11 @@ class KeyJoins(FnContract):
             return a
 
         def result_type(I, a, b):
-            return 'common-dtype'
+            return PObj('dtype', fields={'kind': 'f' if cfg.get('float_keys') else 'i'})
         return {'numpy.isin': Builtin('np.isin', isin), 'numpy.zeros_like': Builtin('np.zeros_like', zeros_like),
                 'numpy.asarray': Builtin('np.asarray', asarray), 'numpy.result_type': Builtin('np.result_type', result_type),
                 'concatenate_arrays': Builtin('concatenate_arrays', concat), 'IncompatibleAttribute': PType('IncompatibleAttribute'),
+                'numpy.ones': Builtin('np.ones', lambda I, n, dtype=None: arr(('true',))), 'numpy.isnan': Builtin('np.isnan', lambda I, a: arr(('isnan', a.fields['term']), a.fields['shape_of'])),
                 'getattr': Builtin('getattr', lambda I, o, n, d=None: o.fields.get(n, d)), 'bool': PType('bool')}
 
     raises = {'IncompatibleAttribute': lambda cfg, st: cfg['others'] in ('none', 'all-incompatible'),
@@ -133,6 +154,12 @@ class KeyJoins(FnContract):
             exp = ('isin', L[0], Rr[0])
         elif n1 == n2:
             exp = ('isin', ('tuple',) + tuple(L), ('tuple',) + tuple(Rr))
+            if cfg.get('float_keys'):
+                # floating-point keys: a row with NaN in a key column matches nothing (NaN is not equal to anything, as for one-column keys)
+                valid = ('true',)
+                for l in L:
+                    valid = _and(valid, ('not', ('isnan', l)))
+                exp = _and(exp, valid)
         elif n1 == 1:
             exp = ('false',)
             for rcol in Rr:
